@@ -63,7 +63,7 @@ def run_lane(ctx, n_cases, which):
             s = 0.0
             for ch in range(A):
                 for q in range(L):
-                    s += ((1.0 if c["x"][q] == ch else 0.0) - (1.0 if ref[q] == ch else 0.0)) * r["mult"][j][ch][q]
+                    s += ((1.0 if c["x"][q] == ch else 0.0) - ref[ch][q][0] / ref[ch][q][1]) * r["mult"][j][ch][q]
             want = (fx[0] * p["fr"][1] - p["fr"][0] * fx[1], fx[1] * p["fr"][1])
             if which == "C04" and not close(s, want):
                 ctx.violation("M3", "pair (x, ref %d): sum((x-ref)*multipliers)=%r but model(x)-model(ref)=%s/%s" % (j, s, want[0], want[1]),
@@ -97,7 +97,7 @@ def run_lane(ctx, n_cases, which):
                     "hypothetical" if c["hyp"] else "observed-character", ch, q, r["attr"][ch][q], o["attr"][ch][q][0], o["attr"][ch][q][1]),
                     dict(mode="case", case=c), cls="attribution-hyp" if c["hyp"] else "attribution")
         if len(ctx.cov["samples"]) < 3:
-            ctx.sample(dict(lane="M3", case=desc, refs=r["refs"], specified=dict(fx=fx, fr=frs, mult_ref0_row0=o["per"][0]["mult"][:1] if o["attr"] != [] else "n/a (maxpool)"),
+            ctx.sample(dict(lane="M3", case=desc, refs=[[["%d/%d" % tuple(v) for v in row] for row in rm] for rm in r["refs"][:1]], specified=dict(fx=fx, fr=frs, mult_ref0_row0=o["per"][0]["mult"][:1] if o["attr"] != [] else "n/a (maxpool)"),
                             observed=dict(fx=r["fx"], mult_ref0_row0=r["mult"][0][:1])))
     stats["patched_classes"] = sorted(stats["patched_classes"]); stats["native_classes"] = sorted(stats["native_classes"])
     ctx.cov["evaluations"] += len(cases)
